@@ -505,7 +505,10 @@ namespace plan
         c.super = -1;
       long nf = modn(op.arg(1), 3);
       for (long i = 0; i < nf; ++i)
+      {
         c.rfields.push_back("f" + std::to_string(id) + "_" + std::to_string(i));
+        c.rfield_mode.push_back(static_cast<int>(modn(op.arg(5) >> (2 * i), 4) % 3)); // field initialisers
+      }
       long ofc = modn(op.arg(2), m.classes.size() + 2);
       if (ofc >= 2 && !m.classes[ofc - 2].is_sv)
         c.ofield_class = static_cast<int>(ofc) - 2;
@@ -539,10 +542,14 @@ namespace plan
       m.all_ofields(c, of);
       size_t pos = 1;
       std::string args;
+      std::vector<std::pair<int, size_t>> rf_owner; // (class, index of the field in that class), aligned with rf
+      m.all_rfield_owners(c, rf_owner);
       for (size_t i = 0; i < rf.size(); ++i)
       {
         mpq_class v = q(op.arg(pos), op.arg(pos + 1), 9);
         pos += 2;
+        if (i < rf_owner.size() && m.classes[rf_owner[i].first].rmode(rf_owner[i].second) == 2)
+          v = m.classes[rf_owner[i].first].rfield_default(rf_owner[i].second); // no constructor parameter: the field initialiser decides
         in.rargs.push_back(v);
       }
       for (size_t i = 0; i < of.size(); ++i)
